@@ -25,6 +25,9 @@ and mapproxy/cache/file.py (FileCache.tile_location / level_location) -> coq/gen
   whole (hash of the AST with string constants checked separately); mapproxy/config/loader.py `load_configuration` must bind
   conf_base_dir exactly once, to os.path.abspath(os.path.dirname(mapproxy_conf)).
 
+* mapproxy/cache/legend.py `legend_hash`, `LegendCache.store` / `load` and request/wms `WMSLegendGraphicRequestParams._get_scale`
+  are pinned whole: the legend file is <cache_dir>/<md5 hexdigest>.<ext>, the request's SCALE is a float (or None) and only enters the digest.
+
 Fail closed: any other shape raises Unsupported (the check then reports a broken translator obligation).
 """
 import ast
@@ -271,6 +274,26 @@ def conf_base_dir_pinned(tree):
         raise Unsupported('load_configuration: conf_base_dir is bound %d times' % n_bind)
 
 
+# legend cache (GetLegendGraphic): sha256 of the hole-dumps and the string constants
+LEGEND_PINNED = {'legend_hash': ('45b81a45d5437bb0f6c0acee6d8c423cb0e210b07af063812237da41bc868a59', ['utf-8', 'ascii']), 'LegendCache.store': ('fb3686a427c480a64cf1b97b0a85d11da99f1469d78d8b276d8e2ad7775754fd', ['.', 'image/', 'writing to %s', 'setting file permissions on compact cache file: ']), 'LegendCache.load': ('1491bc67ab9da1847c08d4a75ae389766fe03b56fa5b2448f20e2d3accdcaf3d', ['.']), '_get_scale': ('45147d7af9b624fdd3571649de24f40ab2409d43da75a8c958782ac3a41c635f', ['scale', 'scale'])}
+
+
+def legend_pinned(ltree, rtree):
+    """cache/legend.py legend_hash (md5 hexdigest of identifier and str(scale)), LegendCache.store / load
+    (location = os.path.join(self.cache_dir, hash) + '.' + self.file_ext) and request/wms _get_scale (float or None) are pinned whole."""
+    import hashlib
+    fns = {'legend_hash': _func(ltree, 'legend_hash'), 'LegendCache.store': _func(ltree, 'store', cls='LegendCache'),
+           'LegendCache.load': _func(ltree, 'load', cls='LegendCache'),
+           '_get_scale': _func(rtree, '_get_scale', cls='WMSLegendGraphicRequestParams')}
+    for name, fn in fns.items():
+        h = _Holes()
+        body = [h.visit(n) for n in _body(fn)]
+        got = '[' + ', '.join(ast.dump(n) for n in body) + ']'
+        digest, consts = LEGEND_PINNED[name]
+        if hashlib.sha256(got.encode()).hexdigest() != digest or h.values != consts:
+            raise Unsupported('%s no longer has the pinned body (constants %r): %s ...' % (name, h.values, got[:300]))
+
+
 class _Holes(ast.NodeTransformer):
     """replace every str constant by a numbered hole, remembering the values"""
 
@@ -327,6 +350,8 @@ def generate(repo):
         raise Unsupported('FileCache.level_location: unexpected constants')
     fs_pinned(ast.parse(open(os.path.join(repo, 'mapproxy/util/fs.py')).read()))
     conf_base_dir_pinned(ast.parse(open(os.path.join(repo, 'mapproxy/config/loader.py')).read()))
+    legend_pinned(ast.parse(open(os.path.join(repo, 'mapproxy/cache/legend.py')).read()),
+                  ast.parse(open(os.path.join(repo, 'mapproxy/request/wms/__init__.py')).read()))
     multiapp_pinned(ast.parse(open(os.path.join(repo, 'mapproxy/multiapp.py')).read()))
     for name in FILE_ACCESS_METHODS:
         file_access_pinned(_func(ftree, name, cls='FileCache'))
